@@ -82,7 +82,12 @@ def perturb(rng, mh, specs, idx, field):
             return None
         tree[f][0] = rng.choice(cand)
     elif field == "exec" and files:
-        f = rng.choice(files)
+        # prefer a file that is a new version in this revision for another reason as well:
+        # then its last-changed revision is the same in both worlds and the strict texts
+        # differ ONLY in the executable flag
+        parents = [p for p in s["parents"] if p in mh.revs]
+        strong = [f for f in files if mh.ver[s["id"]][f] == s["id"] and all(f not in mh.revs[p]["tree"] or list(mh.revs[p]["tree"][f][:4]) != list(tree[f][:4]) for p in parents)]
+        f = rng.choice(strong or files)
         tree[f][4] = 1 - tree[f][4]
     elif field == "symlink_target" and links:
         f = rng.choice(links)
@@ -170,6 +175,8 @@ def generate(rng, tier):
     mh = replay_dag(specs)
     variants = []
     fields = rng.sample(FIELDS, rng.randint(3, 5))
+    if "exec" not in fields and rng.random() < 0.3:
+        fields[0] = "exec"  # the only perturbation that only the strict classes attest
     for field in fields:
         for _ in range(4):
             idx = rng.randrange(len(specs))
@@ -228,6 +235,10 @@ def execute(sim, plan):
                 v = plan["variants"][op["variant"]]
                 wspecs[v["idx"]] = v["spec"]
                 field = v["field"]
+                if field == "parents":
+                    # later revisions could get parents that are now redundant (the
+                    # working tree would silently drop them): this world ends here
+                    wspecs = wspecs[: v["idx"] + 1]
             url = world.new_store(w)
             db = storesim.DagBuilder(url, op["fmt"], "shared", tag=w)
             done = []
